@@ -4,7 +4,7 @@ import contracts.lineage as LN
 import contracts.context as CX
 import contracts.standins_lineage as B
 
-PROVED = [LN.add_lineage, LN.add_lineage_child, LN.folder_matches, LN.matches, LN.plugins_are_cached, LN.register, CX.find_options, CX.check_cache, LN.datakey_run_id]
+PROVED = [LN.add_lineage, LN.add_lineage_child, LN.folder_matches, LN.matches, LN.plugins_are_cached, LN.register, CX.find_options, CX.check_cache, LN.datakey_run_id, LN.set_plugin_config]
 
 PROPERTY = Property(
     "C02", "proof",
